@@ -48,10 +48,11 @@ theorem precedence_table :
 /-! ## infix → postfix: the shunting-yard loop is correct for every writing of every tree -/
 
 /-- **Correctness of `infix_to_postfix`.**  For every table that is well formed, every expression tree `e` over the
-    table (no bound on depth or size) and every token list `ts` that writes `e` with at least the parentheses that
+    table (no bound on depth or size; `OverW`: formula trees and, for C06, antecedent trees whose leaves are runs of
+    plain words) and every token list `ts` that writes `e` with at least the parentheses that
     precedence and associativity require – and any number of redundant ones (`Lang.Prints`) –, the loop returns the
     postfix form of `e`. -/
-theorem sy_correct (tbl : Table) (hT : tbl.WellFormed) (e : Expr) (he : e.Over tbl) (ts : List Tok)
+theorem sy_correct (tbl : Table) (hT : tbl.WellFormed) (e : Expr) (he : e.OverW tbl) (ts : List Tok)
     (hp : Prints e ts) : toPostfix tbl (ts.map Tok.str) = .ok (e.pfx.map Tok.str) := by
   unfold toPostfix
   rw [map_fix (Pr.fix hT hp he), sy_prints (Expr.shape_of_over hT he) hp]
@@ -59,11 +60,11 @@ theorem sy_correct (tbl : Table) (hT : tbl.WellFormed) (e : Expr) (he : e.Over t
 
 /-- the writing with exactly the necessary parentheses is one of the writings … -/
 theorem minimal_writing (tbl : Table) (hT : tbl.WellFormed) (e : Expr) (he : e.Over tbl) :
-    Prints e (e.prMin 0 0) := Expr.prMin_pr e (Expr.shape_of_over hT he) 0 0
+    Prints e (e.prMin 0 0) := Expr.prMin_pr e (Expr.shape_of_over hT he.toW) 0 0
 
 /-- … and so is the fully parenthesised one (redundant parentheses are harmless) -/
 theorem full_writing (tbl : Table) (hT : tbl.WellFormed) (e : Expr) (he : e.Over tbl) :
-    Prints e e.prFull := Expr.prFull_pr e (Expr.shape_of_over hT he) 0 0
+    Prints e e.prFull := Expr.prFull_pr e (Expr.shape_of_over hT he.toW) 0 0
 
 /-- any sub-expression may be wrapped in parentheses -/
 theorem redundant_parentheses (e : Expr) (ts : List Tok) (h : Prints e ts) : Prints e (.lp :: ts ++ [.rp]) :=
@@ -75,13 +76,13 @@ theorem redundant_parentheses (e : Expr) (ts : List Tok) (h : Prints e ts) : Pri
 theorem parsePostfix_postfix (tbl : Table) (e : Expr) (he : e.Over tbl) :
     parsePostfix tbl (e.pfx.map Tok.str) = .ok e := by
   unfold parsePostfix
-  rw [map_fix (Expr.pfx_fix he), parsePostfixTok_pfx e (arities_of_over he)]
+  rw [map_fix (Expr.pfx_fix he.toW), parsePostfixTok_pfx e (arities_of_over he)]
 
 /-- `Function.parse` of any writing of a tree is that tree -/
 theorem parse_print (tbl : Table) (hT : tbl.WellFormed) (e : Expr) (he : e.Over tbl) (ts : List Tok)
     (hp : Prints e ts) : parseFormula tbl (ts.map Tok.str) = .ok e := by
   unfold parseFormula
-  rw [sy_correct tbl hT e he ts hp]
+  rw [sy_correct tbl hT e he.toW ts hp]
   exact parsePostfix_postfix tbl e he
 
 /-- **Postfix round trip.**  The tree of a loaded formula prints to a postfix form from which the stack machine
